@@ -331,7 +331,7 @@ thread_local! {
 }
 
 /// some raw input the constructor accepts (cached per declaration)
-fn valid_start<I: Inputs>(vt: &'static Vt<I>) -> Option<I> {
+pub fn valid_start<I: Inputs>(vt: &'static Vt<I>) -> Option<I> {
     let cached = VALID_START.with(|c| c.borrow().get(vt.id).cloned());
     let j = match cached {
         Some(j) => j,
